@@ -60,6 +60,12 @@ CLAIMS["C11"] = dict(
    note=TRUST + ". Assumed: the byte-string theory axioms (concat, sub-string, byte1), strings.TrimPrefix/TrimSuffix contracts; that the lexer hands VisitTerminal exactly the STRING token text and that the grammar admits exactly these escapes (ZitiQl.g4, read, not verified); that a comparison node compares with the value ParseZqlString returned (listener code covered by the C10 sweep for safety only). Strings longer than 2^62 bytes are outside the model.",
    technique="contract-based deductive verification: quantified loop invariant against a recursive spec function, lemma functions composed from contracts, SMT (z3/cvc5)")
 
+CLAIMS["C18"] = dict(
+   text="Only the sequential half that contracts can decide: a function that writes no memory reachable by another goroutine cannot race with itself. Proved as frame obligations on the real code: IsErrNotFoundErr, IsReferenceExistsError and IsUniqueIndexDuplicateError write nothing but a fresh local (errors.As is trusted to write only through its target; the package-level targets were a genuine race, repaired by a fix commit and the obligations fail again on the old body); BaseStore.GetSymbol writes nothing that existed before the call and never hands out a pre-existing *entitySetSymbolRuntime (the only symbol type with cursor state): every implementation of GetRuntimeSymbol returns a fresh object, composite and map-element symbols are fresh or one of their fresh inputs; zitiql.parse takes its lexer and parser from the pools and returns every instance it took exactly once on every path (ghost set of checked-out instances; Put requires the instance to be checked out). NOT claimed here, and outside this technique: that a read transaction observes exactly one committed state under every interleaving (bbolt MVCC) and race-freedom of the ANTLR runtime's shared caches.",
+   design="5/C18",
+   note=TRUST + ". Assumed: errors.As writes only *target; sync.Pool hands an object to one taker at a time; the store's symbol table holds no *entitySetSymbolRuntime (nothing in the repository adds one; not mechanised). The snapshot-isolation clause and the race-freedom of third-party code are not decided by this check: a violation of those clauses would not be reported.",
+   technique="contract-based deductive verification: frame (modifies) obligations and freshness postconditions over go/ssa VCs, ghost check-out set for pooled instances")
+
 NA = {
  "C12": "not applicable to contract-based verification of the repository's Go code: how 'a and b or c', parentheses, keyword case and whitespace group is decided by ANTLR's ATN interpreter (AdaptivePredict) running the serialized grammar embedded in zitiql_parser.go; the generated Go functions are a table-driven shell around it, so no precondition/postcondition on a repository function can state 'the tree for this text is that tree', and the ANTLR tool needed to regenerate or analyse the grammar is not available here. (The listener half - each connective node evaluates as its connective - is contract-shaped and is part of the C10 sweep's dispatch contracts.) Observed while reading: 'a and b or c' groups as 'a and (b or c)'; recorded in DESIGN.md section 7 for the maintainers.",
  "C17": "not applicable: equality of the whole database across close/rename/reopen, what concurrent transactions observe during the swap, and restore listeners firing after the swap are file-system and schedule properties of bbolt and the OS (os.Rename, file locks, goroutines); contracts over single calls of repository functions cannot express them, and the only contract-shaped fragment (DbImpl.GetTimelineId's flag logic) does not decide the property.",
